@@ -22,6 +22,8 @@ Here this is lifted to runs (`step_oext`, `run_oext`) and read off clause by cla
   what it records later;
 * `closed_queue_forever` - C10 "`put` on a closed queue raises StreamClosed and stores nothing": closed for ever, and the
   buffer from then on is always a suffix of what it was (items are only taken from the front);
+* `queue_fifo_forever` - C10 "receives complete in the order the items were put": the buffer only loses items at the front and
+  gains items at the back;
 * `closed_channel_forever` - C11;
 * `event_triggered_once` - C18 "an event is triggered at most once": a value, once there, is the value for ever;
 * `callbacks_processed_once` - C18 "its callbacks run exactly once": processed callbacks are never armed again.
@@ -145,7 +147,14 @@ theorem closed_queue_forever (n : Nat) (w : World Rat) (q : Name) (hq : q < w.qu
     (hc : (w.queues.getD q default).closed = true) :
     ((w.runFuel n).1.queues.getD q default).closed = true ∧
     ((w.runFuel n).1.queues.getD q default).buffer <:+ (w.queues.getD q default).buffer :=
-  ((run_oext n w).queues.2 q hq).2.2 hc
+  ((run_oext n w).queues.2 q hq).2.2.1 hc
+
+/-- **a queue is FIFO for every program**: after any number of steps its buffer is what it was, minus some items taken from
+the *front*, plus some items added at the *back* - nothing is ever reordered, inserted in the middle or removed from
+anywhere but the head -/
+theorem queue_fifo_forever (n : Nat) (w : World Rat) (q : Name) (hq : q < w.queues.size) :
+    ∃ k ys, ((w.runFuel n).1.queues.getD q default).buffer = (w.queues.getD q default).buffer.drop k ++ ys :=
+  ((run_oext n w).queues.2 q hq).2.2.2
 
 /-- a queue keeps its notification and its read mutex -/
 theorem queue_identity (n : Nat) (w : World Rat) (q : Name) (hq : q < w.queues.size) :
